@@ -367,6 +367,17 @@ func C17(run *mon.Run) {
 				}
 			}
 		}
+		// ... and whatever the OTHER key is: an identity BLS key (from every producer) in the other position
+		for _, ik := range identityKeys(r) {
+			for _, esk := range []crypto.PrivateKey{e1, e2} {
+				_, ea := crypto.SPOCKVerify(ik.pk, good, esk.PublicKey(), good)
+				_, eb := crypto.SPOCKVerify(esk.PublicKey(), good, ik.pk, good)
+				run.Eval(2)
+				if !crypto.IsNotBLSKeyError(ea) || !crypto.IsNotBLSKeyError(eb) {
+					run.Violate("C17:non-bls-key:verify:with-identity-key", fmt.Sprintf("SPOCKVerify with an ECDSA key and the identity key %s in the other position: errors %v / %v", ik.name, ea, eb), nil)
+				}
+			}
+		}
 		// SPOCKVerify: a non-BLS key in either position is refused whatever the proofs look like
 		for pn, proof := range proofs {
 			for _, esk := range []crypto.PrivateKey{e1, e2} {
